@@ -28,7 +28,7 @@ print(json.dumps(out))
 """ % os.path.join(VERIF, "harness")
 
 
-def run(chk, scs, R):
+def run(chk, scs, R, light=False):
     import tempfile
     from scripted import run_sim_impl
     base = [list(run_sim_impl(sc)[0]) for sc in scs]
@@ -38,7 +38,9 @@ def run(chk, scs, R):
         json.dump(scs, open(path, "w"))
         n = len(scs)
         orders = [list(range(n)), list(reversed(range(n))), [0, 1, 0, 2, 1, 0][:max(1, min(6, n))]]
-        for hs in ("0", "1", "4242", "random"):
+        if light:
+            orders = orders[:1]
+        for hs in (("1", "random") if light else ("0", "1", "4242", "random")):
             for order in orders:
                 env = dict(os.environ, PYTHONHASHSEED=hs)
                 p = subprocess.run([sys.executable, "-c", CHILD, path, json.dumps(order)], capture_output=True, text=True,
